@@ -31,12 +31,12 @@ func observe(m *ir.Module, keepLits bool) observation {
 			return nil, false
 		case *metadata.NullLit:
 			if keepLits {
-				return op{"k": "null"}, true
+				return op{"k": "null", "f": ""}, true
 			}
 			return nil, false
 		case *metadata.String:
 			if keepLits {
-				return op{"k": "str", "s": v.Value}, true
+				return op{"k": "str", "s": v.Value, "f": ""}, true
 			}
 			return nil, false
 		case *metadata.Value:
@@ -47,10 +47,10 @@ func observe(m *ir.Module, keepLits bool) observation {
 			}
 			id := v.ID()
 			if id == -1 {
-				return op{"k": "tuple", "id": id, "ops": children(v)}, true
+				return op{"k": "tuple", "id": id, "ops": children(v), "f": ""}, true
 			}
 			def, ok := byID[id]
-			return op{"k": "ref", "id": id, "same": ok && def == v}, true
+			return op{"k": "ref", "id": id, "same": ok && def == v, "f": ""}, true
 		}
 		return nil, false
 	}
@@ -79,6 +79,7 @@ func observe(m *ir.Module, keepLits bool) observation {
 					continue
 				}
 				if o, ok := opOf(fv.Interface()); ok {
+					o["f"] = strings.ToLower(f.Name)
 					out = append(out, o)
 				}
 			case reflect.Slice:
